@@ -369,7 +369,7 @@ func cmdCheck(args []string) {
 		}
 	}
 	// judge witnesses (translator validation)
-	witOK, witBad, witMissing, witNondet := 0, 0, 0, 0
+	witOK, witBad, witMissing, witNondet, witStub := 0, 0, 0, 0, 0
 	var witDiffs []string
 	badHarness := map[string]bool{}
 	for name, wc := range witCases {
@@ -381,6 +381,8 @@ func cmdCheck(args []string) {
 		same := len(r.Failures) == 0 && !r.Hang && (r.Panic == "") && !r.Short && equalStrings(r.Observed, wc.w.Observed)
 		if same {
 			witOK++
+		} else if wc.w.UFDependent {
+			witStub++ // the model interprets uninterpreted stand-ins (base64, sha1, url.Parse, filepath.Match) freely; the real functions may differ
 		} else if wc.w.NDChoices > 0 {
 			witNondet++ // the path depends on select/scheduler choices the native run is free to make differently
 		} else {
@@ -470,6 +472,9 @@ func cmdCheck(args []string) {
 			inconcl = append(inconcl, rep.spec.Fn+": vacuous: "+id)
 			totalIncon++
 		}
+	}
+	if witStub > 0 {
+		fmt.Printf("note: %d sampled witnesses lie on paths that depend on uninterpreted stand-ins for stdlib functions; their models are not realisable natively and were not compared\n", witStub)
 	}
 	if witNondet > 0 {
 		fmt.Printf("note: %d sampled witnesses lie on paths with select/scheduler choices and took a different (legitimate) course natively; not counted\n", witNondet)
